@@ -2675,6 +2675,10 @@ func getVarDependencies(nod *node, sc *scope) (deps []*node) {
 			if n.anc.kind == selectorExpr && childPos(n) == 1 {
 				return false
 			}
+			if n.ident == "_" {
+				// All blank identifiers share the same symbol.
+				return false
+			}
 			sym := n.sym
 			if !inFunc || sym == nil {
 				// In a function body, identifiers have been resolved by cfg, taking local
